@@ -1,6 +1,8 @@
 package taskctl
 
 import (
+	"context"
+	"errors"
 	"os/exec"
 	"sync"
 	"sync/atomic"
@@ -101,7 +103,8 @@ func (s *Scheduler) Schedule(g *scheduler.ExecutionGraph) error {
 					stage.UpdateStatus(scheduler.StatusError)
 					s.notifyStageChange(stage)
 
-					if !stage.AllowFailure {
+					// A canceled stage did not run (completely), this is not a failure that is allowed
+					if !stage.AllowFailure || errors.Is(err, context.Canceled) {
 						mx.Lock()
 						lastErr = err
 						mx.Unlock()
